@@ -152,7 +152,7 @@ pub fn resolve_once(
 {
     if opts.debug_iterations
     {
-        println!(
+        debug_println!(
             "[===== iteration #{} {}=====]",
             iteration_index,
             if is_last_iteration { "(final) " } else { "" });
